@@ -18,6 +18,7 @@
 #include "gm2_mf.hpp"
 #include <cmath>
 #include <cstring>
+#include <functional>
 #include <sstream>
 #include <string>
 #include <vector>
@@ -228,6 +229,46 @@ inline void O10(int p, Res& r) {
    )
 }
 
+// O11: error paths and non-finite producers.  The outcome of a refused point (exception text), of a point kept
+// alive by force-output (values + warning/problem texts) and of evaluations that legitimately produce NaN/inf
+// must not depend on what the process / thread computed before, and must leave nothing behind (warn-once flags,
+// sticky floating-point status, half-updated statics) that changes a later evaluation.
+//   p = 0: negative soft mass^2 (no tachyon) WITH force-output; then MSSM 2-loop at tan(beta) = 1 (non-finite)
+//   p = 1: the same negative soft mass^2 WITHOUT force-output (must be refused); a tachyonic THDM gauge-basis
+//          point with and without force-output; THDM 2-loop with a massless up quark in the SM input
+inline void sub(Res& r, const char* tag, const std::function<void()>& f) {
+   try { f(); r.txt += std::string(tag) + ":ok;"; }
+   catch (const gm2calc::Error& e) { r.txt += std::string(tag) + ":EXC " + e.what() + ";"; }
+   catch (const std::exception& e) { r.txt += std::string(tag) + ":STD " + e.what() + ";"; }
+}
+inline MSSMNoFV_onshell mssm_negsoft(bool force) {
+   MSSMNoFV_onshell model; const Eigen::Matrix<double,3,3> U = Eigen::Matrix<double,3,3>::Identity();
+   mssm_sm(model, 0); model.do_force_output(force);
+   model.set_TB(10); model.set_Ae(1, 1, 0); model.set_Mu(350); model.set_MassB(150); model.set_MassWB(300); model.set_MassG(1000);
+   model.set_mq2(500. * 500 * U); model.set_ml2(500. * 500 * U); model.set_md2(500. * 500 * U); model.set_mu2(500. * 500 * U);
+   Eigen::Matrix<double,3,3> me2 = 500. * 500 * U; me2(0, 0) = -100.0; model.set_me2(me2);
+   model.set_Au(2, 2, 0); model.set_Ad(2, 2, 0); model.set_Ae(2, 2, 0); model.set_MA0(1500); model.set_scale(454.7);
+   model.calculate_masses();
+   return model;
+}
+inline void O11(int p, Res& r) {
+   if (p == 0) {
+      sub(r, "negsoft-force", [&] { MSSMNoFV_onshell m = mssm_negsoft(true); push(r, calculate_amu_1loop(m)); push(r, calculate_amu_2loop(m));
+                                   push(r, calculate_amu_1loop_non_tan_beta_resummed(m)); r.txt += m.get_problems().get_warnings() + "|" + m.get_problems().get_problems() + "|"; });
+      sub(r, "mssm-tb1", [&] { MSSMNoFV_onshell m; const Eigen::Matrix<double,3,3> U = Eigen::Matrix<double,3,3>::Identity(); mssm_sm(m, 0); m.do_force_output(true);
+                              m.set_TB(1); m.set_Mu(350); m.set_MassB(150); m.set_MassWB(300); m.set_MassG(1000); m.set_mq2(500. * 500 * U); m.set_ml2(500. * 500 * U);
+                              m.set_md2(500. * 500 * U); m.set_mu2(500. * 500 * U); m.set_me2(500. * 500 * U); m.set_MA0(1500); m.set_scale(454.7); m.calculate_masses();
+                              push(r, calculate_amu_1loop(m)); push(r, calculate_amu_2loop(m)); push(r, calculate_uncertainty_amu_2loop(m)); });
+   } else {
+      sub(r, "negsoft-noforce", [&] { MSSMNoFV_onshell m = mssm_negsoft(false); push(r, calculate_amu_1loop(m)); push(r, calculate_amu_2loop(m)); push(r, calculate_amu_1loop_non_tan_beta_resummed(m)); });
+      for (int force = 0; force < 2; force++)
+         sub(r, force ? "thdm-tachyon-force" : "thdm-tachyon", [&] { thdm::Gauge_basis b; b.yukawa_type = thdm::Yukawa_type::type_2;
+            b.lambda << 0.7, 0.6, 0.5, 0.4, 0.3, 0.0, 0.0; b.tan_beta = 3; b.m122 = -40000;
+            thdm::Config c; c.force_output = force != 0; THDM m(b, SM(), c); push(r, calculate_amu_1loop(m)); push(r, calculate_amu_2loop(m)); push(r, m.get_Mhh(0)); push(r, m.get_MAh(1)); });
+      sub(r, "thdm-massless-up", [&] { SM sm; sm.set_mu(0, 0.0); thdm::Config c; c.force_output = true; THDM m(thdm_basis(0), sm, c); push(r, calculate_amu_2loop(m)); push(r, calculate_amu_2loop_fermionic(m)); });
+   }
+}
+
 static const Op OPS[] = {
    {"O1_mssm_gm2calc_build_eval", O1, false},
    {"O2_thdm_build_eval", O2, false},
@@ -239,6 +280,7 @@ static const Op OPS[] = {
    {"O8_thdm_slha_parse_build_eval", O8, false},
    {"O9_mssm_non_resummed_copy", O9, true},
    {"O10_thdm_sparse_build_eval", O10, false},
+   {"O11_error_paths_nonfinite", O11, false},
 };
 static const int NOPS = sizeof(OPS) / sizeof(OPS[0]);
 
